@@ -15,7 +15,7 @@ import PycsepVerif.Proofs.ForecastDatesCal
     never a product), idempotent, the fraction depends on the three dates only, is ≥ 0 and weakly increasing in the test
     date; the exact-arithmetic fraction is in (0, 1] when the test day ends inside the period.
   Round 5: the distance of the binary64 fraction from the exact one is PROVED (`test_date_fraction_close`: ≤ 2·10^-10 for
-  periods of at least 31 days, `test_date_fraction_close_short`: ≤ 2·10^-9 for periods of at least 2 days; every datetime
+  periods of at least 31 days, `test_date_fraction_close_short`: ≤ 5·10^-9 for periods of at least ONE day; every datetime
   0001 … 9999, test dates on the last day of the period included), from C15's full-range error bound of `decimal_year`.
 -/
 namespace ForecastFile
@@ -157,11 +157,11 @@ theorem test_date_fraction_exact_range (start end_ test : Int) (h1 : start < tes
 
 /-! ### the computed fraction is the exact fraction up to rounding -/
 
-/-- general form: a period of at least `m` µs (`m ≥ 2 days`) and any tolerance `ε ≤ 1` with `9·10^-12 ≤ ε · m / (366 days)` -/
+/-- general form: a period of at least `m` µs (`m ≥ 1 day`) and any tolerance `ε ≤ 1` with `11·10^-12 ≤ ε · m / (366 days)` -/
 theorem test_date_fraction_close_aux (start end_ test m : Int) (q ε : Rat)
     (hs : -62135596800000000 ≤ start) (he : end_ + usPerDay < 253402300800000000)
-    (hm : 2 * 86400000000 ≤ m) (hd : start + m ≤ end_) (hε0 : 0 ≤ ε) (hε1 : ε ≤ 1)
-    (hεm : 9 / 1000000000000 ≤ ε * ((m : ℚ) / 31622400000000))
+    (hm : 86400000000 ≤ m) (hd : start + m ≤ end_) (hε0 : 0 ≤ ε) (hε1 : ε ≤ 1)
+    (hεm : 11 / 1000000000000 ≤ ε * ((m : ℚ) / 31622400000000))
     (hq : testDateFraction start end_ test = some q) :
     |q - testDateFractionExact start end_ test| ≤ ε + 1 / 100000000000000 := by
   unfold testDateFraction at hq
@@ -186,7 +186,7 @@ theorem test_date_fraction_close_aux (start end_ test m : Int) (q ε : Rat)
           apply div_le_div_of_nonneg_right _ (by norm_num)
           exact_mod_cast (by omega : m ≤ end_ - start)
         linarith
-      have hm' : (2 * 86400000000 : ℚ) / 31622400000000 ≤ (m : ℚ) / 31622400000000 := by
+      have hm' : (86400000000 : ℚ) / 31622400000000 ≤ (m : ℚ) / 31622400000000 := by
         apply div_le_div_of_nonneg_right _ (by norm_num)
         exact_mod_cast hm
       have hN1 : (86400000000 : ℚ) / 31622400000000 ≤ decimalYearExact (test + 86400000000) - decimalYearExact start := by
@@ -209,11 +209,11 @@ theorem test_date_fraction_close_aux (start end_ test m : Int) (q ε : Rat)
           have : (0 : ℚ) ≤ (86400000000 : ℚ) / 31536000000000 := by norm_num
           linarith
       have c1 : (9 : ℚ) / 1000000000000 ≤ (86400000000 : ℚ) / 31622400000000 := by norm_num
-      have c2 : (86400000000 : ℚ) / 31536000000000 ≤ (2 * 86400000000 : ℚ) / 31622400000000 := by norm_num
+      have c2 : (86400000000 : ℚ) / 31536000000000 ≤ 2 * ((86400000000 : ℚ) / 31622400000000) := by norm_num
       unfold testDateFractionExact
       simp only [usPerDay]
       apply quotient_close _ _ _ _ _ _ ε eS eE eT (by linarith) (by linarith) (by linarith) hε0 hε1
-      calc (9 : ℚ) / 1000000000000 ≤ ε * ((m : ℚ) / 31622400000000) := hεm
+      calc (11 : ℚ) / 1000000000000 ≤ ε * ((m : ℚ) / 31622400000000) := hεm
         _ ≤ ε * (decimalYearExact end_ - decimalYearExact start) := mul_le_mul_of_nonneg_left hDm hε0
 
 /-- **C11, the test-date fraction is right to 2·10^-10** for every forecast period of at least 31 days and every test date
@@ -223,18 +223,24 @@ theorem test_date_fraction_close (start end_ test : Int) (q : Rat)
     (hs : -62135596800000000 ≤ start) (he : end_ + usPerDay < 253402300800000000)
     (hd : start + 31 * 86400000000 ≤ end_) (hq : testDateFraction start end_ test = some q) :
     |q - testDateFractionExact start end_ test| ≤ 2 / 10000000000 := by
-  have := test_date_fraction_close_aux start end_ test (31 * 86400000000) q (11 / 100000000000) hs he (by norm_num) hd
+  have := test_date_fraction_close_aux start end_ test (31 * 86400000000) q (13 / 100000000000) hs he (by norm_num) hd
     (by norm_num) (by norm_num) (by norm_num) hq
   linarith
 
-/-- … and to 2·10^-9 for every period of at least 2 days -/
+/-- … and to 5·10^-9 for EVERY period of at least one day (one-day forecasts, a test date on the only day included) -/
 theorem test_date_fraction_close_short (start end_ test : Int) (q : Rat)
     (hs : -62135596800000000 ≤ start) (he : end_ + usPerDay < 253402300800000000)
-    (hd : start + 2 * 86400000000 ≤ end_) (hq : testDateFraction start end_ test = some q) :
-    |q - testDateFractionExact start end_ test| ≤ 2 / 1000000000 := by
-  have := test_date_fraction_close_aux start end_ test (2 * 86400000000) q (17 / 10000000000) hs he (by norm_num) hd
+    (hd : start + 86400000000 ≤ end_) (hq : testDateFraction start end_ test = some q) :
+    |q - testDateFractionExact start end_ test| ≤ 5 / 1000000000 := by
+  have := test_date_fraction_close_aux start end_ test 86400000000 q (41 / 10000000000) hs he (by norm_num) hd
     (by norm_num) (by norm_num) (by norm_num) hq
   linarith
+
+-- a one-day period (2019-12-15 … 2019-12-16), a test date one second after its start: the fraction is 1 + 1 s / 1 day
+example : ∃ q, testDateFraction 1576368000000000 1576454400000000 1576368001000000 = some q ∧
+    |q - testDateFractionExact 1576368000000000 1576454400000000 1576368001000000| ≤ 5 / 1000000000 := by
+  obtain ⟨q, hq⟩ := test_date_inside_sets 1576368000000000 1576454400000000 1576368001000000 (by decide) (by decide)
+  exact ⟨q, hq, test_date_fraction_close_short _ _ _ q (by decide) (by decide) (by decide) hq⟩
 
 example : |(68531204197 / 137438953472 : ℚ) - testDateFractionExact 1262304000000000 1293840000000000 1277942400000000|
     ≤ 2 / 10000000000 :=
